@@ -293,8 +293,8 @@ impl TcpStream {
                 let a_addr = SocketAddr::new(if dst.is_ipv4() { LOOPBACK } else { IpAddr::V6(std::net::Ipv6Addr::LOCALHOST) }, port);
                 let harness_a = node == world::NODE_HARNESS;
                 let harness_b = w.listeners[lid].owner == world::NODE_HARNESS;
-                let mut p0 = w.new_pipe(cid as u64, 0, harness_b);
-                let mut p1 = w.new_pipe(cid as u64, 1, harness_a);
+                let mut p0 = w.new_pipe(cid as u64, 0, harness_a);
+                let mut p1 = w.new_pipe(cid as u64, 1, harness_b);
                 if w.first_atomic_ports.contains(&dst.port()) {
                     p0.first_atomic = true;
                     p1.first_atomic = true;
@@ -576,12 +576,25 @@ fn poll_write_impl(cid: usize, side: u8, cx: &mut Context<'_>, data: &[u8]) -> P
         if p.fin_at.is_some() {
             return Poll::Ready(Err(io::Error::new(io::ErrorKind::BrokenPipe, "Broken pipe")));
         }
-        if p.reader_gone {
-            w.stats.tcp_epipe += 1;
-            return Poll::Ready(Err(io::Error::new(io::ErrorKind::BrokenPipe, "Broken pipe")));
-        }
         if data.is_empty() {
             return Poll::Ready(Ok(0));
+        }
+        if p.reader_gone {
+            // The peer has closed its socket. A real kernel accepts the first write (it cannot know yet), the peer
+            // answers with RST, and only writes after that round trip fail.
+            let now = Instant::now();
+            match p.rst_at {
+                Some(at) if at <= now => {
+                    w.stats.tcp_epipe += 1;
+                    return Poll::Ready(Err(io::Error::new(io::ErrorKind::BrokenPipe, "Broken pipe")));
+                }
+                Some(_) => {}
+                None => p.rst_at = Some(now + Duration::from_nanos(2 * lat)),
+            }
+            p.written += data.len() as u64;
+            log::trace!("sim write-to-closed cid={cid} side={side} n={} discarded", data.len());
+            w.log(7, (cid as u64) << 1 | side as u64, data.len() as u64);
+            return Poll::Ready(Ok(data.len()));
         }
         let used = p.inflight_bytes + p.rbuf.len();
         let atomic = p.first_atomic && p.written == 0;
@@ -590,7 +603,7 @@ fn poll_write_impl(cid: usize, side: u8, cx: &mut Context<'_>, data: &[u8]) -> P
             w.stats.tcp_backpressure += 1;
             return Poll::Pending;
         }
-        if !p.last_pending_wr && p.rng.permille(pending_pm) {
+        if p.harness_writer && !p.last_pending_wr && p.rng.permille(pending_pm) {
             p.last_pending_wr = true;
             w.stats.tcp_spurious_pending += 1;
             cx.waker().wake_by_ref();
